@@ -4,7 +4,7 @@
 # property's check against the copy (VERIF_REPO), prints the outcome and removes the copy.
 # Exit 0 if the check reported a violation (exit 1 of the check), 1 otherwise.
 set -u
-PATCH="$1"; ID="$2"; TIER="${3:-quick}"; SEED="${4:-1}"
+PATCH="$1"; case "$PATCH" in revert:*) ;; /*) ;; *) PATCH="$(pwd)/$PATCH" ;; esac; ID="$2"; TIER="${3:-quick}"; SEED="${4:-1}"
 VERIF_DIR="$(cd "$(dirname "$0")/.." && pwd)"
 SCRATCH="$(mktemp -d /tmp/verif-selftest-XXXXXX)"
 trap 'rm -rf "$SCRATCH"' EXIT
